@@ -25,7 +25,7 @@ CHECKS = {
    design="DESIGN.md §6 C05"),
  "C07": dict(
    category="proof",
-   text="Coq: on the sampler models the decision tree for (location, scale) IS the decision tree of the standard sampler with the affine expression applied at the leaves (syntactic equality of trees; for inverse Gaussian, triangular and Pert a semantic simulation): identical decisions, identical words consumed, value = loc + scale * standard value as reals; from_zscore is literally mean + std_dev * z. Normal, LogNormal, Exp, Cauchy, Gumbel, Frechet, Pareto, Weibull, SkewNormal, Gamma (3 representations), InverseGaussian, Triangular, Pert. Direct oracle on the real crate: paired sample() calls on identical streams, exact recomputation of the map on the standard sample (bit equality where the map is the last IEEE operations), equal word counts.",
+   text="Coq/Flocq (Props/C07_fl.v): the IEEE program Bplus(mean, Bmult(sd, z)) of Normal::from_zscore equals the nested rounding, is within u|m+sz| + u(2+u)|sz| + (1+u)eta of the real affine map, scales exactly by powers of two, propagates NaN, maps z=+-inf to the signed infinity and sd=0 to mean, for every binary format. Coq: on the sampler models the decision tree for (location, scale) IS the decision tree of the standard sampler with the affine expression applied at the leaves (syntactic equality of trees; for inverse Gaussian, triangular and Pert a semantic simulation): identical decisions, identical words consumed, value = loc + scale * standard value as reals; from_zscore is literally mean + std_dev * z. Normal, LogNormal, Exp, Cauchy, Gumbel, Frechet, Pareto, Weibull, SkewNormal, Gamma (3 representations), InverseGaussian, Triangular, Pert. Direct oracle on the real crate: paired sample() calls on identical streams, exact recomputation of the map on the standard sample (bit equality where the map is the last IEEE operations), equal word counts.",
    note="Models tied to the code by C01's pathwise correspondence; python float arithmetic is IEEE binary64.",
    technique="Coq proof (tree-map equalities / simulation) + paired-sampling oracle with exact IEEE recomputation",
    design="DESIGN.md §6 C07"),
@@ -37,7 +37,7 @@ CHECKS = {
    design="DESIGN.md §6 C11"),
  "C12": dict(
    category="proof",
-   text="Coq: norm identities of the circle/sphere transforms, angle doubling, z = 1-2s, accepted points inside the disc/ball, the exact [-1,1) draw, all lifted by induction over the rejection loop to every result of the four sampler models; the rejection stage of each model is characterised completely (Props/C12_events.v): the iteration that draws a candidate returns it (or its transform) exactly when it passes the test of the code and otherwise the loop behaves as the loop on the remaining words, so the output is the first candidate of the stream inside the region; models tied pathwise to the crate; norm predicate (4 ulp) on the real output incl. adversarial words.",
+   text="Coq/Flocq (Props/C12_fl.v): the IEEE acceptance tests x1*x1+x2*x2[+x3*x3] <= 1 of UnitDisc/UnitBall never overflow on [-1,1] coordinates and an accepted candidate has real squared norm <= 1+4u resp. 1+6u (u=2^-prec) in binary32 and binary64. Coq: norm identities of the circle/sphere transforms, angle doubling, z = 1-2s, accepted points inside the disc/ball, the exact [-1,1) draw, all lifted by induction over the rejection loop to every result of the four sampler models; the rejection stage of each model is characterised completely (Props/C12_events.v): the iteration that draws a candidate returns it (or its transform) exactly when it passes the test of the code and otherwise the loop behaves as the loop on the remaining words, so the output is the first candidate of the stream inside the region; models tied pathwise to the crate; norm predicate (4 ulp) on the real output incl. adversarial words.",
    note="Uniformity reduces to classical geometric facts not formalised (B-class).",
    technique="Coq proof (real algebra lifted over the loop) + pathwise correspondence + norm oracle",
    design="DESIGN.md §6 C12"),
